@@ -20,6 +20,7 @@ install = {
  "append_task": "append demo.rs to rodbus/src/client/task.rs; run `cargo test -p rodbus --lib --offline %s`" % flt,
  "rodbus_tests": "copy demo.rs to rodbus/tests/%s.rs; run `cargo test -p rodbus --offline --features verif-hooks --test %s`" % (flt, flt),
  "lib_mod": "copy demo.rs to rodbus/src/%s.rs and append `#[cfg(test)] mod %s;` to rodbus/src/lib.rs; run `cargo test -p rodbus --lib --offline %s`" % (flt, flt, flt),
+ "ffi_append": "append demo.rs to ffi/rodbus-ffi/src/lib.rs; run `cargo test -p rodbus-ffi --offline %s`" % flt,
  "ffi_tests": "copy demo.rs to ffi/rodbus-ffi/tests/%s.rs; run `cargo test -p rodbus-ffi --offline --test %s`" % (flt, flt),
 }.get(mode, mode)
 keep = {
